@@ -40,6 +40,22 @@ theorem c01_toplevel_source (ext : Py.Ext) (n : Nat) (dm : Bool) (e : Py.Env) (e
   rw [hn, hv]
   cases dm <;> simp
 
+/-- C03 (same line), of the translated source: on a line on which no component sees the stop or the skip flag set, every component
+    is evaluated exactly once, in the order written, each in the state its predecessors left; what `Matcher.matches` leaves behind
+    is that state with the line's errors handled. -/
+theorem c03_sameline_source (ext : Py.Ext) (n : Nat) (dm : Bool) (e : Py.Env) (effs : List Py.Eff) (r : List String)
+    (endIdx : Option Nat) (i : Nat) (hC : Contract ext) (hinv : Inv dm 0 e) (hlen : e "len(self.expressions)" = .int n)
+    (hli : LineInfo e r endIdx i) (hbl : blankLast r endIdx i = false)
+    (hq : ∀ t ∈ states (world ext n) n 0 e, (world ext n).stopped t = false ∧ (world ext n).skip t = false) :
+    ∃ b, okVE (Generated.Matches.Matcher.matches ext e effs) =
+      some (.bool b, (world ext n).finish ((world ext n).clearErrors (afterAll (world ext n) n 0 e))) := by
+  have h := matches_source_is_model ext n dm e effs r endIdx i hC hinv hlen hli
+  refine ⟨(matchLine (world ext n) dm (blankLast r endIdx i) e).1, ?_⟩
+  rw [h, hbl]
+  simp only [matchLine, Bool.false_eq_true, if_false]
+  have hn : (world ext n).n = n := rfl
+  rw [hn, Proofs.MatchTop.go_final (world ext n) dm n 0 e (!dm) hq]
+
 /-- C13 (stop), of the translated source: a component that sees the stop flag set is not evaluated, nor is any later one; the
     line does not match. -/
 theorem c13_stop_cut_source (ext : Py.Ext) (n : Nat) (dm : Bool) (e : Py.Env) (effs : List Py.Eff) (r : List String)
